@@ -2,6 +2,7 @@ package types
 
 import (
 	"encoding/json"
+	"math/big"
 	"strconv"
 
 	sdkmath "cosmossdk.io/math"
@@ -74,29 +75,34 @@ func ParseBool(v string) (Bool, error) {
 // ratio: swap rate
 // inputScale: the decimal scale of input amount
 // outputScale: the decimal scale of output amount
+//
+// It returns the part of the input that is actually converted and the output
+// it is converted to. The output is the largest whole amount the input is
+// worth at the given ratio and scales, and the converted input is the smallest
+// amount that is worth this output, so the output is never worth more than the
+// converted input; the remainder of the input is left untouched. All
+// arithmetic is done on integers: one input min unit is worth
+// ratio*10^outputScale/10^inputScale = num/den output min units.
 func LossLessSwap(input sdkmath.Int, ratio sdkmath.LegacyDec, inputScale, outputScale uint32) (sdkmath.Int, sdkmath.Int) {
-	inputDec := sdkmath.LegacyNewDecFromInt(input)
-	scaleFactor := int64(inputScale) - int64(outputScale)
-	var scaleMultipler, scaleReverseMultipler sdkmath.LegacyDec
-
-	if scaleFactor >= 0 {
-		scaleMultipler = sdkmath.LegacyNewDecWithPrec(1, scaleFactor)
-		scaleReverseMultipler = sdkmath.LegacyNewDecFromInt(sdkmath.NewIntWithDecimal(1, int(scaleFactor)))
-	} else {
-		scaleMultipler = sdkmath.LegacyNewDecFromInt(sdkmath.NewIntWithDecimal(1, int(-scaleFactor)))
-		scaleReverseMultipler = sdkmath.LegacyNewDecWithPrec(1, -scaleFactor)
+	if !input.IsPositive() || !ratio.IsPositive() {
+		return sdkmath.ZeroInt(), sdkmath.ZeroInt()
 	}
 
-	// Calculate output
-	outputDec := inputDec.Clone().Mul(scaleMultipler).Mul(ratio)
-	outputInt := outputDec.Clone().TruncateDec()
+	num := new(big.Int).Mul(ratio.BigInt(), pow10(outputScale))
+	den := new(big.Int).Mul(pow10(sdkmath.LegacyPrecision), pow10(inputScale))
 
-	// Adjust input if there are decimal places in the output
-	if !outputDec.Equal(outputInt) {
-		outputFrac := outputDec.Clone().Sub(outputInt)
-		inputFrac := outputFrac.Mul(scaleReverseMultipler)
-		input = inputDec.Sub(inputFrac).TruncateInt()
-	}
+	// output = floor(input * num / den)
+	output := new(big.Int).Mul(input.BigInt(), num)
+	output.Quo(output, den)
 
-	return input, outputInt.TruncateInt()
+	// converted input = ceil(output * den / num), never more than input
+	converted := new(big.Int).Mul(output, den)
+	converted.Add(converted, new(big.Int).Sub(num, big.NewInt(1)))
+	converted.Quo(converted, num)
+
+	return sdkmath.NewIntFromBigInt(converted), sdkmath.NewIntFromBigInt(output)
+}
+
+func pow10(n uint32) *big.Int {
+	return new(big.Int).Exp(big.NewInt(10), big.NewInt(int64(n)), nil)
 }
